@@ -29,6 +29,8 @@ def main():
         needs = str(meta.get("needs_to_manifest", ""))[:120].replace("|", "/").replace("\n", " ")
         last = {}
         for r in det:
+            if r["exit"] == 1 and not any(l.startswith("VIOLATION") for l in r.get("lines", [])):
+                continue        # the check process itself crashed (no result line): not a detection result
             last[(r["check"], r.get("only"), r.get("tier"))] = r
         if not last:
             print("| %s | %s | %s | %s | - | not run |" % (seed, what, needs, conf))
